@@ -80,6 +80,10 @@ type Cfg struct {
 	// dedicated run (hook VerifPrepareRacingBatch): a batch lands behind the stop sentinel of Peer.Stop while a
 	// (gated) encryption worker holds it; then the peer is restarted
 	RestartRace bool `json:"restart_race"`
+	// the device is made to start a new handshake in the middle of the flood (counter raised past RekeyAfterMessages
+	// by the hook, spacing lifted); a responder loop completes it; the inbound flood goes on under the OLD session
+	// the whole time and must be delivered completely, in order
+	Rekey bool `json:"rekey"`
 	// this many TUN read batches per peer are staged BEFORE the session exists (the handshake response is held back
 	// until then); the flush at handshake completion must release all of them, in order
 	StagedBefore int `json:"staged_before"`
@@ -161,8 +165,8 @@ func runCase(c Cfg) Case {
 	w.Timeout = 10 * time.Second
 	info := map[string]any{}
 	cs := Case{Cfg: c, Info: info, Removed: -1}
-	if c.Flushers > 0 {
-		cs.Mode = "multi"
+	if c.Flushers > 0 || c.Rekey {
+		cs.Mode = "multi" // outbound: no order is promised around a handshake; exactly once, processed
 	}
 	if c.Cycles > 0 || c.RestartRace {
 		cs.Mode = "atmost"
@@ -531,7 +535,7 @@ func runCase(c Cfg) Case {
 	var collWg sync.WaitGroup
 	var nextIdx atomic.Uint32
 	nextIdx.Store(0x500000)
-	if c.Cycles > 0 {
+	if c.Cycles > 0 || c.Rekey {
 		addrPeer := map[string]int{}
 		for i, p := range peers {
 			addrPeer[p.Addr.String()] = i
@@ -598,6 +602,18 @@ func runCase(c Cfg) Case {
 				} else {
 					runtime.Gosched()
 				}
+			}
+		}()
+	}
+	if c.Rekey {
+		auxWg.Add(1)
+		go func() {
+			defer auxWg.Done()
+			time.Sleep(time.Duration(3000+rng.Intn(6000)) * time.Microsecond)
+			for _, p := range peers {
+				pk := cosim.NoisePK(p.Pub)
+				w.Dev.VerifShiftHandshakeTimes(pk, 6*time.Second)
+				w.Dev.VerifSetSendNonce(pk, uint64(1)<<60+1+uint64(rng.Intn(1000))) // raising only: sound at any time
 			}
 		}()
 	}
@@ -1019,6 +1035,15 @@ func genCfg(r *rand.Rand, i int, pkts int) Cfg {
 		c.NIn = 1000
 	}
 	switch i % 12 {
+	case 9:
+		// a device-initiated rekey in the middle of a paced flood in both directions
+		c.Rekey = true
+		c.Remove, c.Huge, c.VictimShare = false, false, 0 // (i%6 == 3 made this a removal run: not combined)
+		c.NOut, c.NIn = pkts, pkts
+		c.Procs = []int{runtime.NumCPU(), 4, 2}[r.Intn(3)]
+		c.Peers = 1 + r.Intn(2)
+		c.ChunkMax, c.PaceUs = 8, 300
+		c.Hogs, c.OneIn = 0, 0
 	case 0:
 		c.StagedBefore = 2 + r.Intn(6)
 	case 6:
